@@ -56,6 +56,111 @@ ORIGINS = [
 READ_KINDS = 10
 
 
+# ------------------------------------------------------------------------------------------------ histories, validators
+def hist_parts(t):
+    """(class table, validation rules, number of variables, operations) of a (Hist ..) / (HistV ..) term"""
+    if t.name == "HistV":
+        return t.args[0], t.args[1], t.args[2], t.args[3]
+    return t.args[0], [], t.args[1], t.args[2]
+
+
+def mk_hist(ct, rules, nvars, ops):
+    return Con("HistV", ct, rules, nvars, ops) if rules else Con("Hist", ct, nvars, ops)
+
+
+def _s(x):
+    return x.decode() if isinstance(x, (bytes, bytearray)) else x
+
+
+def rules_to_json(rules):
+    from ..lib.term import to_text
+
+    return [to_text(r) for r in rules]
+
+
+def rules_from_json(js):
+    from ..lib.term import from_text
+
+    return [norm(from_text(x)) for x in js or []]
+
+
+def gen_rules(rng, u):
+    """validations performed by generated classes in their own __post_init__, AFTER super().__post_init__() (so the node
+    has its id and is registered when ValueError leaves): reject one value of one int/str init property (preferably
+    a non-comparable one: a replace() that only sets it keeps the id), or reject ids ending in a collision suffix"""
+    rules = []
+    cands = []
+    for c in u.classes:
+        for f in u.merged(c.name):
+            if f.role == "Prop" and f.init and f.ptype in ("int", "str"):
+                cands.append((c.name, f))
+    noncmp = [x for x in cands if not x[1].compare]
+    for _ in range(rng.choice([1, 1, 2])):
+        pool = noncmp if noncmp and rng.random() < 0.7 else cands
+        if not pool:
+            break
+        cname, f = rng.choice(pool)
+        v = Con("VInt", rng.choice([0, 1, 2])) if f.ptype == "int" else Con("VStr", rng.choice(["", "a", "test"]))
+        rules.append(Con("VReject", cname, f.name, v))
+    if rng.random() < 0.35 or not rules:
+        rules.append(Con("VIdSuffix", rng.choice(u.classes).name, rng.choice(["_1", "_2", "_2"])))
+    return [norm(r) for r in rules]
+
+
+def inject_validators(u, src, rules):
+    """adds `def __post_init__(self): super(C, self).__post_init__(); <checks>; raise ValueError` to the classes named
+    by the rules (subclasses inherit it; cooperative super() so every rule along the MRO applies)"""
+    by_cls = {}
+    for r in rules:
+        by_cls.setdefault(_s(r.args[0]), []).append(r)
+    lines = src.split("\n")
+    out = []
+    i = 0
+    while i < len(lines):
+        ln = lines[i]
+        out.append(ln)
+        i += 1
+        if ln.startswith("class ") and "(" in ln:
+            cname = ln[len("class "):ln.index("(")]
+            if cname not in by_cls:
+                continue
+            while i < len(lines) and lines[i] != "":
+                out.append(lines[i])
+                i += 1
+            out.append("    def __post_init__(self):")
+            out.append(f"        super({cname}, self).__post_init__()")
+            for r in by_cls[cname]:
+                if r.name == "VReject":
+                    fn, v = _s(r.args[1]), r.args[2]
+                    if v.name == "VInt":
+                        cond = f"type(self.{fn}) is int and self.{fn} == {int(v.args[0])}"
+                    else:
+                        cond = f"type(self.{fn}) is str and self.{fn} == {_s(v.args[0])!r}"
+                else:
+                    cond = f"self.id.endswith({_s(r.args[1])!r})"
+                out.append(f"        if {cond}:")
+                out.append(f"            raise ValueError('rejected by {cname}')")
+    return "\n".join(out)
+
+
+def load_universe(u, rules):
+    """u.load() with the validators injected into the generated source (a universe is always loaded with the same rules:
+    they are generated once per class family)"""
+    if not rules:
+        return u.load()
+    if u.module is None:
+        import sys
+        import types
+
+        m = types.ModuleType(f"verif_universe_{u.uid}")
+        sys.modules[m.__name__] = m
+        exec(compile(inject_validators(u, u.source(), rules), m.__name__, "exec", dont_inherit=True), m.__dict__)
+        u.module = m
+        u._c03_rules = list(rules)
+    assert getattr(u, "_c03_rules", None) == list(rules), "universe loaded twice with different validators"
+    return u.module
+
+
 # ------------------------------------------------------------------------------------------------ generator
 class Sh:
     """shadow of a node: just enough structure to generate well-formed operations"""
@@ -81,8 +186,10 @@ def L(v, k):
 
 
 class HistGen:
-    def __init__(self, rng, u, nvars, max_ops):
+    def __init__(self, rng, u, nvars, max_ops, rules=()):
         self.rng, self.u, self.nvars, self.max_ops = rng, u, nvars, max_ops
+        self.rules = list(rules)
+        self.maybe = set()   # variables believed to hold self.vars[v] but possibly empty (an id-suffix rule may have fired)
         self.vars = [None] * nvars
         self.ops = []
         self.origins = rng.sample(ORIGINS, 2) if rng.random() < 0.7 else list(ORIGINS)
@@ -134,13 +241,82 @@ class HistGen:
             return Con("VStr", rng.choice(["", "a", "test", "L3C2089KVA"]))
         return gen_value(rng, f.ptype, self.u.enum_name)
 
+    # ----- validators
+    def rejects(self, cname, props):
+        """True: a VReject rule fires for (class, property values); None: an id-suffix rule applies (unpredictable)"""
+        pd = dict(props)
+        maybe = False
+        for r in self.rules:
+            if not self.u.is_sub(cname, _s(r.args[0])):
+                continue
+            if r.name == "VReject":
+                if pd.get(_s(r.args[1])) == r.args[2]:
+                    return True
+            else:
+                maybe = True
+        return None if maybe else False
+
+    def tree_rejects(self, sh):
+        rs = [self.rejects(x.cls, x.props) for x in sh.pre()]
+        return True if any(r is True for r in rs) else (None if any(r is None for r in rs) else False)
+
+    def push(self, op, dst, sh, verdict):
+        """appends an operation whose result goes to variable dst: verdict False = it returns the node with shadow sh,
+        True = its class rejects it (dst keeps what it holds), None = unpredictable (id-suffix rule).  An operation is
+        also unpredictable when one of its operands sits in a maybe-empty variable (then it is Skipped on both sides).
+        Invariant kept: a variable holds what the generator believes, or - when listed in self.maybe - possibly nothing;
+        never a node of another class.  For that an unpredictable operation only writes into an empty variable."""
+        if verdict is True:
+            self.ops.append(op)
+            return
+        used = set()
+
+        def walk(x):
+            if isinstance(x, Con):
+                if x.name == "L":
+                    used.add(x.args[0])
+                for a in x.args:
+                    walk(a)
+            elif isinstance(x, (list, tuple)):
+                for a in x:
+                    walk(a)
+
+        walk(op)
+        if verdict is None or any(v in self.maybe for v in used):
+            if dst in used:
+                raise GenRetry()
+            if self.vars[dst] is not None or dst in self.maybe:
+                self.ops.append(Con("Drop", dst))
+            self.ops.append(op)
+            self.vars[dst] = sh
+            self.maybe.add(dst)
+        else:
+            self.ops.append(op)
+            self.vars[dst] = sh
+            self.maybe.discard(dst)
+
+    def drop(self, v):
+        self.ops.append(Con("Drop", v))
+        self.vars[v] = None
+        self.maybe.discard(v)
+
+    def reject_rule_for(self, cname):
+        rs = [r for r in self.rules if r.name == "VReject" and self.u.is_sub(cname, _s(r.args[0]))]
+        fields = {f.name: f for f in self.u.merged(cname)}
+        rs = [r for r in rs if _s(r.args[1]) in fields and fields[_s(r.args[1])].role == "Prop" and fields[_s(r.args[1])].init]
+        return self.rng.choice(rs) if rs else None
+
     # ----- operations
-    def emit_new(self, dst, cname, depth=0, recipe=None, avoid=()):
+    def emit_new(self, dst, cname, depth=0, recipe=None, avoid=(), late=False):
         rng, u = self.rng, self.u
         if len(self.ops) > self.max_ops + 8:
             raise GenRetry()
         origin = recipe.origin if recipe is not None else rng.choice(self.origins)
         props = list(recipe.props) if recipe is not None else self.gen_props(cname)
+        if late:
+            r = self.reject_rule_for(cname)
+            if r is not None:
+                props = [(n, r.args[2] if n == _s(r.args[1]) else v) for n, v in props]
         used = set(avoid) | {dst}
         kid_terms, kid_sh = [], []
         rk = {n: l for n, _, l in recipe.kids} if recipe is not None else {}
@@ -173,6 +349,8 @@ class HistGen:
                         used.add(v)
                         ccls = want[j].cls if want is not None else rng.choice(u.subclasses_of(rng.choice(f.child_types)))
                         self.emit_new(v, ccls, depth + 1, recipe=want[j] if want is not None else None, avoid=used)
+                        if self.vars[v] is None:
+                            raise GenRetry()   # the child was (or may have been) rejected by its class
                         loc = (v, 0)
                     elif cands:
                         loc = rng.choice(cands)
@@ -186,8 +364,8 @@ class HistGen:
                 raise GenRetry()
             kid_terms.append(Con("K", f.name, Con(shape), [L(v, k) for v, k in elems]))
             kid_sh.append((f.name, shape, [self.vars[v].pre()[k] for v, k in elems]))
-        self.ops.append(Con("New", dst, cname, origin, [Con("P", n, v) for n, v in props], kid_terms))
-        self.vars[dst] = Sh(cname, origin, props, kid_sh)
+        self.push(Con("New", dst, cname, origin, [Con("P", n, v) for n, v in props], kid_terms),
+                  dst, Sh(cname, origin, props, kid_sh), self.rejects(cname, props))
 
     def gen_changes(self, sh, fail=None):
         """changes for a replace of the node with shadow sh: (terms, new shadow or None when the call must raise)"""
@@ -225,6 +403,19 @@ class HistGen:
                 shape = "ShMany" if f.role == "Tup" else ("ShOne" if n == 1 else "ShNone")
                 terms.append(Con("Ch", name, Con("CKids", Con(shape), [L(v, k) for v, k, _ in el])))
                 kids = [(n_, shape, [s for _, _, s in el]) if n_ == name else (n_, s_, l_) for n_, s_, l_ in kids]
+        if fail == "late":
+            r = self.reject_rule_for(sh.cls)
+            if r is None:
+                return terms, Sh(sh.cls, origin, props, kids)
+            nm = _s(r.args[1])
+            if rng.random() < 0.6:
+                # only the rejected value (and nothing else that takes part in the id, when the field is non-comparable)
+                terms = [t for t in terms if _s(t.args[0]) == "origin" and rng.random() < 0.2]
+                origin, props, kids = (origin if terms else sh.origin), list(sh.props), list(sh.kids)
+            terms = [t for t in terms if _s(t.args[0]) != nm]
+            terms.insert(rng.randrange(len(terms) + 1), Con("Ch", nm, Con("CProp", r.args[2])))
+            props = [(n, r.args[2] if n == nm else x) for n, x in props]
+            return terms, Sh(sh.cls, origin, props, kids)
         if fail:
             noninit = [f.name for f in fields if not f.init] + ["id", "content_id"]
             if fail in ("value", "both"):
@@ -248,9 +439,10 @@ class HistGen:
     def emit_replace(self, kind, loc, dst, fail=None):
         v, k, sh = loc
         terms, nsh = self.gen_changes(sh, fail)
-        self.ops.append(Con(kind, dst, L(v, k), terms))
         if nsh is not None:
-            self.vars[dst] = nsh
+            self.push(Con(kind, dst, L(v, k), terms), dst, nsh, self.rejects(nsh.cls, nsh.props))
+        else:
+            self.ops.append(Con(kind, dst, L(v, k), terms))
 
     def step(self):
         rng = self.rng
@@ -260,8 +452,38 @@ class HistGen:
         if sum(n for n, _ in sizes) > 40 and rng.random() < 0.8:
             # keep the held forest (and with it the size of every observation) bounded: drop the biggest tree
             v = max(sizes)[1]
-            self.ops.append(Con("Drop", v))
-            self.vars[v] = None
+            self.drop(v)
+            return
+        if self.rules and loc is not None and rng.random() < 0.3:
+            # a construction rejected by its class AFTER registration: replace / dataclasses.replace / constructor /
+            # duplicate (id-suffix rules: the copy of a registered node carries a collision suffix)
+            ruled = [x for x in self.all_locs() if self.reject_rule_for(x[2].cls) is not None]
+            if ruled and rng.random() < 0.85:
+                loc = rng.choice(ruled)
+            sfx = [r for r in self.rules if r.name == "VIdSuffix"]
+            k = rng.random()
+            if sfx and k < 0.35:
+                r = rng.choice(sfx)
+                under = [x for x in self.all_locs() if any(self.u.is_sub(y.cls, _s(r.args[0])) for y in x[2].pre())]
+                if under:
+                    v, kk, sh = rng.choice(under)
+                    if _s(r.args[1]) == "_2" and rng.random() < 0.7:
+                        tw = [y for y in sh.pre() if self.u.is_sub(y.cls, _s(r.args[0]))]
+                        self.emit_new(self.free_var(avoid=(v,)), tw[0].cls, recipe=tw[0], avoid=(v,))
+                        l2 = self.loc_of(sh)
+                        if l2 is None:
+                            return
+                        v, kk = l2
+                    dst = self.free_var(avoid=(v,))
+                    self.push(Con("Dup", dst, L(v, kk)), dst, self.copy(sh), self.tree_rejects(sh))
+                    return
+            if k < 0.55:
+                self.emit_replace("Replace", loc, self.free_var(avoid=(loc[0],) if rng.random() < 0.8 else ()), fail="late")
+            elif k < 0.75:
+                self.emit_replace("DcReplace", loc, self.free_var(avoid=(loc[0],) if rng.random() < 0.8 else ()), fail="late")
+            else:
+                cl = [c for c in self.cnames if self.reject_rule_for(c) is not None]
+                self.emit_new(self.free_var(), rng.choice(cl or self.cnames), late=True)
             return
         if loc is None or r < 0.28:
             dst = self.free_var()
@@ -274,8 +496,7 @@ class HistGen:
         elif r < 0.37:
             dst = self.free_var()
             v, k, sh = loc
-            self.ops.append(Con("Dup", dst, L(v, k)))
-            self.vars[dst] = self.copy(sh)
+            self.push(Con("Dup", dst, L(v, k)), dst, self.copy(sh), self.tree_rejects(sh))
         elif r < 0.50:
             self.emit_replace("Replace", loc, self.free_var(avoid=(loc[0],) if rng.random() < 0.8 else ()),
                               fail=rng.choice([None, None, None, "value", "type", "both"]))
@@ -287,9 +508,7 @@ class HistGen:
         elif r < 0.74:
             self.ops.append(Con("DetachSelf", L(loc[0], loc[1])))
         elif r < 0.83:
-            v = loc[0]
-            self.ops.append(Con("Drop", v))
-            self.vars[v] = None
+            self.drop(loc[0])
         elif r < 0.90:
             self.ops.append(Con("Read", L(loc[0], loc[1]), rng.randrange(READ_KINDS)))
         else:
@@ -321,30 +540,30 @@ class HistGen:
                               fail=rng.choice([None, None, "value"]))
         else:
             root = self.vars[v]
-            self.ops.append(Con("Drop", v))
-            self.vars[v] = None
+            self.drop(v)
             self.emit_new(self.free_var(), root.cls, recipe=root)
 
     def run(self, n_ops):
         tries = 0
         while len(self.ops) < n_ops and tries < 4 * n_ops:
             tries += 1
-            snap = (list(self.vars), len(self.ops))
+            snap = (list(self.vars), len(self.ops), set(self.maybe))
             try:
                 self.step()
             except GenRetry:
                 self.vars = snap[0]
                 del self.ops[snap[1]:]
+                self.maybe = snap[2]
         return self.ops[: self.max_ops + 8]
 
 
-def gen_history(rng, u, tier, lo=4, hi=None):
+def gen_history(rng, u, tier, lo=4, hi=None, rules=()):
     nvars = rng.randint(4, 8)
     max_ops = 12 if tier == "quick" else 60
     n_ops = rng.randint(min(lo, max_ops), hi or max_ops)
-    g = HistGen(rng, u, nvars, max_ops)
+    g = HistGen(rng, u, nvars, max_ops, rules)
     ops = g.run(n_ops)[:max_ops]
-    return Con("Hist", u.term(), nvars, ops)
+    return mk_hist(u.term(), list(rules), nvars, ops)
 
 
 def gen_cases(rng, tier):
@@ -356,27 +575,31 @@ def gen_cases(rng, tier):
     for _ in range(n_uni):
         u = gen_universe(rng, n_roots=rng.choice([1, 2, 2]), max_levels=2, rich=rng.random() < 0.6)
         uj = universe_to_json(u)
+        # about half of the class families validate in their own __post_init__ (late-failing constructions)
+        rules = gen_rules(rng, u) if rng.random() < 0.6 else []
+        rj = rules_to_json(rules)
         for j in range(per):
             if tier == "quick":
-                t = gen_history(rng, u, tier)
+                t = gen_history(rng, u, tier, rules=rules)
             elif j == 0:
                 # thorough: one short history per class family stays small enough for the in-kernel re-evaluation
                 # (harness/main.py samples inputs below 6000 characters; the observations of long histories are
                 # megabytes of text, which coqc cannot hold as string literals)
-                t = gen_history(rng, u, tier, lo=4, hi=8)
+                t = gen_history(rng, u, tier, lo=4, hi=8, rules=rules)
             else:
-                t = gen_history(rng, u, tier, lo=40, hi=60)
+                t = gen_history(rng, u, tier, lo=40, hi=60, rules=rules)
                 if len(to_text(t)) < 6000:
                     continue
-            cases.append({"kind": "history", "input": t, "digest_size": rng.choice([1, 1, 2, 8]), "opts": {"universe": uj}})
+            cases.append({"kind": "history+validators" if rules else "history", "input": t,
+                          "digest_size": rng.choice([1, 1, 2, 8]), "opts": {"universe": uj, "rules": rj}})
     return cases
 
 
 # ------------------------------------------------------------------------------------------------ implementation
 class Run:
-    def __init__(self, u, nvars):
+    def __init__(self, u, nvars, rules=()):
         self.u = u
-        self.mod = u.load()
+        self.mod = load_universe(u, list(rules))
         self.vars = [None] * nvars
         self.seen = []        # (weakref, id string) in order of first sight
         self.seen_at = {}     # id(obj) -> index in seen
@@ -582,7 +805,10 @@ def exec_op(run, op):
             if v is _SKIP:
                 return Con("Skipped"), Con("XNone")
             kwargs[k.args[0].decode()] = v
-        obj = getattr(run.mod, cname)(origin=mk_origin(origin), **kwargs)
+        try:
+            obj = getattr(run.mod, cname)(origin=mk_origin(origin), **kwargs)
+        except ValueError:   # the class's own validation, after the node was registered
+            return Con("Raised", "ValueError"), Con("XNone")
         run.vars[dst] = obj
         return ("node", obj), Con("XNone")
     if name == "Dup":
@@ -590,7 +816,10 @@ def exec_op(run, op):
         src = run.resolve(l)
         if src is None:
             return Con("Skipped"), Con("XNone")
-        res = src.duplicate()
+        try:
+            res = src.duplicate()
+        except ValueError:
+            return Con("Raised", "ValueError"), Con("XNone")
         all_new = all(not run.is_seen(o) for o in run.walk(res))
         try:
             eq = Some(bool(res == src))
@@ -711,10 +940,11 @@ def impl(t, case):
     from pyoak import config
 
     u = universe_from_json(case["opts"]["universe"])
-    ops = t.args[2]
+    _, rules, nvars, ops = hist_parts(t)
+    assert [norm(r) for r in rules] == rules_from_json(case["opts"].get("rules")), "rules of the term and of the case differ"
     old = config.ID_DIGEST_SIZE
     config.ID_DIGEST_SIZE = case.get("digest_size") or 8
-    run = Run(u, t.args[1])
+    run = Run(u, nvars, rules)
     try:
         gc.collect()
         steps = []
@@ -796,16 +1026,17 @@ def search(rng, tier):
 
     for _ in range(60 if tier == "quick" else 600):
         u = gen_universe(rng, n_roots=2, max_levels=2, rich=False)
-        t = norm(gen_history(rng, u, tier))
+        rules = gen_rules(rng, u) if rng.random() < 0.6 else []
+        t = norm(gen_history(rng, u, tier, rules=rules))
         ds = rng.choice([1, 2, 8])
         from pyoak import config
 
         old = config.ID_DIGEST_SIZE
         config.ID_DIGEST_SIZE = ds
-        run = Run(u, t.args[1])
+        run = Run(u, hist_parts(t)[2], rules)
         det = []  # weakrefs of nodes detached / replaced away
         try:
-            for op in t.args[2]:
+            for op in hist_parts(t)[3]:
                 tgt = run.resolve(op.args[0]) if op.name in ("Detach", "DetachSelf") else (
                     run.resolve(op.args[1]) if op.name == "Replace" else None)
                 if tgt is not None:
